@@ -6,6 +6,8 @@
 set -u
 export GOFLAGS=-mod=mod GOPROXY=off GOSUMDB=off GOTOOLCHAIN=local
 MODE="$1"; D="$(cd "$2" && pwd)"; shift 2
+# a patch re-created by hand on a later HEAD (same change, new context) takes precedence
+PATCH="$D/patch.diff"; [ -f "$D/patch.adapted.diff" ] && PATCH="$D/patch.adapted.diff"
 case "$MODE" in
 confirm)
   WT=$(mktemp -d /tmp/seedwt-XXXXXX); rmdir "$WT"
@@ -25,7 +27,7 @@ confirm)
   }
   echo "== without the change"; r0=$(run_demo without); echo "demo exit: $r0"; tail -3 "$WT/demo.without.log"
   ( cd "$WT" && git checkout -q -- . && git clean -fdq )
-  ( cd "$WT" && git apply "$D/patch.diff" ) || { echo "PATCH DOES NOT APPLY"; exit 2; }
+  ( cd "$WT" && git apply "$PATCH" ) || { echo "PATCH DOES NOT APPLY"; exit 2; }
   ( cd "$WT" && go build ./... ) || { echo "DOES NOT COMPILE"; exit 2; }
   echo "== suite with the change"; ( cd "$WT" && go test -vet=off -count=1 ./... 2>&1 | grep -v 'no test files' | grep -v '^ok' ); echo "suite done (no output above = all ok)"
   echo "== with the change"; r1=$(run_demo with); echo "demo exit: $r1"; tail -5 "$WT/demo.with.log"
@@ -42,7 +44,7 @@ check)
     WT=$(mktemp -d /tmp/seedrepo-XXXXXX); rmdir "$WT"
     git -C /repo worktree add -q --detach "$WT" HEAD || exit 2
     trap 'git -C /repo worktree remove --force "$WT"' EXIT
-    ( cd "$WT" && git apply "$D/patch.diff" ) || { echo "PATCH DOES NOT APPLY"; exit 2; }
+    ( cd "$WT" && git apply "$PATCH" ) || { echo "PATCH DOES NOT APPLY"; exit 2; }
     export VERIF_REPO="$WT"
   fi
   for id in "$@"; do
